@@ -400,7 +400,11 @@ class ExprMixin:
         if z3.is_string(cont):
             return z3.Contains(cont, self.zs.lift(x, z3.StringSort()))
         if isinstance(cont.sort(), z3.SeqSortRef):
-            return z3.Contains(cont, z3.Unit(self.zs.lift(x, cont.sort().basis())))
+            try:
+                xs_ = self.zs.lift(x, cont.sort().basis())
+            except TypeError:
+                return False          # a value of another python type is never equal to an element
+            return z3.Contains(cont, z3.Unit(xs_))
         if isinstance(cont.sort(), z3.ArraySortRef):
             return z3.Select(cont, self.zs.lift(x, cont.sort().domain()))
         raise Unsupported('in')
@@ -484,7 +488,8 @@ class ExprMixin:
                 else:
                     self.oblige('safety:key', has, node)
                     self.path.assume(has)
-            return z3.Select(base.vsort, k)
+            r_ = z3.Select(base.vsort, k)
+            return self.wrap_sort(r_, base.keys) if base.keys is not None else r_
         if z3.is_expr(base) and base.sort().name() in self.zs.rec_by_sort:
             dt, S = self.zs.rec_by_sort[base.sort().name()]
             if not isinstance(idx, int) or not (-len(S.fields) <= idx < len(S.fields)):
@@ -576,6 +581,15 @@ class ExprMixin:
         om = getattr(self.cur_contract, 'opaque', None) or {}
         if attr in om:
             return BoundMethod(base, attr)
+        oa = getattr(self.cur_contract, 'opaque_attrs', None) or {}
+        if attr in oa:
+            S = oa[attr]
+            f = self.ufun(f'attr_{attr}', self.zs.zsort(api.Obj), self.zs.zsort(S.inner if isinstance(S, api.Opt) else S))
+            v = self.wrap_sort(f(base.term), S.inner if isinstance(S, api.Opt) else S)
+            if isinstance(S, api.Opt):
+                nf = self.ufun(f'attr_{attr}_none', self.zs.zsort(api.Obj), z3.BoolSort())
+                return VOpt(nf(base.term), v)
+            return v
         raise Unsupported(f'opaque attribute {attr}: declare it under Contract.opaque')
 
     def ev_Starred(self, e, fr):
@@ -588,7 +602,50 @@ class ExprMixin:
 
     # ---------------------------------------------------------------- comprehensions over concrete iterables
     def ev_ListComp(self, e, fr):
+        if len(e.generators) == 1:
+            it = self.unwrap(self.ev(e.generators[0].iter, fr), e)
+            if self.symbolic_iter(it) is not None and not self.has_concrete_len(it):
+                return self.sym_comprehension(e, fr, it)
         return self.new_list(self.comp_items(e, fr), fr)
+
+    def sym_comprehension(self, e, fr, it):
+        """[elt for x in S if cond] over a symbolic sequence, elt and cond pure: a fresh list characterised by
+        quantified facts (map: pointwise; filter: non-emptiness iff some element satisfies the condition, elements
+        come from S and satisfy it).  Enough for the membership / emptiness reasoning of validation code."""
+        g = e.generators[0]
+        t = self.seqterm(it)
+        j = z3.Int(f'comp!j!{self.qcount}')
+        self.qcount += 1
+        el = t[j]
+        esort = getattr(it, 'esort', None)
+        if esort is not None:
+            el = self.wrap_sort(el, esort)
+        f2 = Frame(None, {}, fr.module, fr, fr.contract)
+        self._pure += 1
+        try:
+            self.assign(g.target, el, f2)
+            conds = [self.truth(self.ev(c, f2)) for c in g.ifs]
+            val = self.ev(e.elt, f2)
+        finally:
+            self._pure -= 1
+        if not z3.is_expr(val):
+            val = self.zs.lift(val, STR if isinstance(val, str) else z3.IntSort())
+        p = self.path
+        R = p.fresh(z3.SeqSort(val.sort()), 'comp')
+        rng = z3.And(j >= 0, j < z3.Length(t))
+        if not g.ifs:
+            p.assume(z3.Length(R) == z3.Length(t), heavy=True)
+            p.assume(z3.ForAll([j], z3.Implies(rng, R[j] == val)), heavy=True)
+        else:
+            c = self.land(*conds)
+            c = z3.BoolVal(c) if isinstance(c, bool) else c
+            k = z3.Int(f'comp!k!{self.qcount}')
+            p.assume(z3.And(z3.Length(R) >= 0, z3.Length(R) <= z3.Length(t)), heavy=True)
+            p.assume((z3.Length(R) > 0) == z3.Exists([j], z3.And(rng, c)), heavy=True)
+            if isinstance(e.elt, ast.Name) and isinstance(g.target, ast.Name) and e.elt.id == g.target.id:
+                p.assume(z3.ForAll([k], z3.Implies(z3.And(k >= 0, k < z3.Length(R)), z3.Contains(t, z3.Unit(R[k])))), heavy=True)
+        self.assumptions.add('list comprehension over a symbolic sequence: fresh list with quantified characterisation (element expression and filter assumed pure)')
+        return VBox('list', R)
 
     def ev_GeneratorExp(self, e, fr):
         if len(e.generators) == 1 and not e.generators[0].ifs:
